@@ -972,11 +972,11 @@ func sizeName(n int) string {
 func (g *gen) sizedLoads(tier string) {
 	for pi, p := range g.pairs {
 		fs := g.forms[p.Name]
-		// quick: one form per pair (rotating; RSA 2048 its PKIX form, RSA 3072 its PKCS#1 form),
+		// quick: one form per pair (rotating; the RSA pairs their PKIX form),
 		// thorough: every form
 		sel := []form{fs[pi%len(fs)]}
-		if p.Name == "rsa2048" {
-			sel = []form{fs[2]}
+		if strings.HasPrefix(p.Name, "rsa") {
+			sel = []form{fs[2]} // PKIX: small model input; RSA private forms are sized in the thorough tier
 		}
 		full := p.Name == "ecdsa256-fresh0" || p.Name == "ed25519-fresh0"
 		if tier == "thorough" {
@@ -1063,7 +1063,10 @@ func (g *gen) bigCertLoads(tier string) {
 			der := bigCertDER(p, target, (pi+si)%2 == 0)
 			f := form{"cert-large", "CERTIFICATE", der, false, true}
 			text := pemOf(f.PemType, f.DER)
-			for _, api := range apis {
+			for ai, api := range apis {
+				if tier != "thorough" && target >= 40<<10 && (ai == 1 || ai == 2) {
+					continue // quick: the largest certificate through one reader and one file loader
+				}
 				l := g.specFor(p, api, text)
 				g.emit(fmt.Sprintf("large-certificate-%dKiB", (len(text)+512)>>10), l, g.expectOK(p, f, "large", l))
 			}
